@@ -174,7 +174,11 @@ func cmdCheck(args []string) {
 		}
 	}
 	DischargeAll(all, work, timeout, seed, 12)
-	twins := VacuityTwins(all, work, seed, 80)
+	nTw := 80
+	if *tier == "thorough" {
+		nTw = 600 // thorough: many more discharged obligations are re-checked for vacuity
+	}
+	twins := VacuityTwins(all, work, seed, nTw)
 	nTwins := 0
 	for _, tw := range twins {
 		nTwins++
